@@ -8,6 +8,7 @@ from __future__ import annotations
 
 import random
 import re
+import enum
 import typing
 import warnings
 
@@ -331,6 +332,10 @@ class TorchLikeDtype:
     __str__ = __repr__
 
 
+class _NameStr(str):
+    pass
+
+
 DUCK_NAMES = [
     ("bool", "bool"), ("uint8", "uint"), ("uint16", "uint"), ("uint32", "uint"), ("uint64", "uint"), ("int8", "int"), ("int16", "int"),
     ("int32", "int"), ("int64", "int"), ("float16", "float"), ("bfloat16", "float"), ("float32", "float"), ("float64", "float"),
@@ -345,6 +350,10 @@ def shard_duck(rec, reverse=False):
         carriers = [("str", real.Duck((2,), dname), real.Duck)]
         carriers.append(("torch", real.Duck((2,), TorchLikeDtype("torch", dname)), typing.Any))
         carriers.append(("mlx", real.Duck((2,), TorchLikeDtype("mlx.core", dname)), real.Duck))
+        # dtypes that ARE strings without being exactly `str` (a str subclass, a str-valued Enum member, numpy.str_)
+        carriers.append(("str-subclass", real.Duck((2,), _NameStr(dname)), real.Duck))
+        carriers.append(("str-enum", real.Duck((2,), enum.Enum("DType", {"member": dname}, type=str).member), real.Duck))
+        carriers.append(("numpy-str_", real.Duck((2,), np.str_(dname)), typing.Any))
         for cn, x, at in carriers:
             for cname in DT.ALL_CATEGORIES:
                 judge(rec, "duck", dname, kind, cname, x, at, cn)
